@@ -434,4 +434,93 @@ theorem ascii_case_c_locale (s : List UInt8) (h : ∀ b ∈ s, b ≠ 0 ∧ b.toN
   · simp only [toLowerCase, caseMap, enum_ascii s h, Option.map_some]
     rw [key _ _ hl s h]
 
+/-- case-insensitive equality coincides with equality of the lower-cased forms, for every pair of byte strings
+    (well-formed or not; both functions stay inside their inputs) -/
+theorem nocase_iff_lower_eq (s t : List UInt8) :
+    ∃ e la lb, equalsNocase s t = some e ∧ toLowerCase s = some la ∧ toLowerCase t = some lb ∧
+      (e = true ↔ la = lb) := by
+  have h1 := enum_some (mem s) (hasNul_mem s)
+  have h2 := enum_some (mem t) (hasNul_mem t)
+  cases ha : enumAll (mem s) with
+  | none => simp [ha] at h1
+  | some A =>
+    cases hb : enumAll (mem t) with
+    | none => simp [hb] at h2
+    | some B =>
+      refine ⟨nocaseLoop A B, A.flatMap (fun p => lowerOf p.1), B.flatMap (fun p => lowerOf p.1), ?_, ?_, ?_, ?_⟩
+      · simp [equalsNocase, ha, hb]
+      · simp [toLowerCase, caseMap, ha, lowerOf]
+      · simp [toLowerCase, caseMap, hb, lowerOf]
+      · exact nocaseLoop_iff lower_shape lower_order lower_cut_entry tables_size.2 A B
+          (enum_ok (mem s) A ha) (enum_ok (mem t) B hb)
+
+/-! ## the unit budget `n` of the free converters: exactly the first `n` characters -/
+
+theorem budget_utf8toUtf32 (cs : List Char) (h : NoNul cs) (junk : List UInt8) (n : Int) (hn : 0 < n) :
+    utf8toUtf32 (Std.utf8 cs ++ 0 :: junk) n = some (Std.codes (cs.take n.toNat)) := by
+  induction cs generalizing n with
+  | nil => rw [utf8toUtf32.eq_def]; simp [Std.codes, Std.utf8]
+  | cons ch t ih =>
+    have h0 : ch.toNat ≠ 0 := h ch (by simp)
+    have ht : NoNul t := fun c hc => h c (by simp [hc])
+    simp only [Std.utf8, List.flatMap_cons, List.append_assoc] at *
+    rw [d32_enc _ _ (enc_char ch h0)]
+    obtain ⟨k, hk⟩ : ∃ k : Nat, n.toNat = k + 1 := ⟨n.toNat - 1, by omega⟩
+    rw [hk, List.take_succ_cons]
+    by_cases hz : n - 1 = 0
+    · have : k = 0 := by omega
+      subst this
+      simp [contN, hz, Std.codes]
+    · rw [ih ht (n - 1) (by omega)]
+      have : (n - 1).toNat = k := by omega
+      simp [contN, hz, Std.codes, this]
+
+theorem budget_utf32toUtf8 (cs : List Char) (h : NoNul cs) (junk : List Int) (n : Int) (hn : 0 < n) :
+    utf32toUtf8 ((Std.codes cs).map Int.ofNat ++ 0 :: junk) n = some (Std.utf8 (cs.take n.toNat)) := by
+  induction cs generalizing n with
+  | nil => simp [Std.codes, Std.utf8, utf32toUtf8]
+  | cons ch t ih =>
+    have h0 : ch.toNat ≠ 0 := h ch (by simp)
+    have ht : NoNul t := fun c hc => h c (by simp [hc])
+    simp only [Std.codes, List.map_cons, List.cons_append] at *
+    rw [show Int.ofNat ch.toNat = (ch.toNat : Int) from rfl, e32_char ch h0]
+    obtain ⟨k, hk⟩ : ∃ k : Nat, n.toNat = k + 1 := ⟨n.toNat - 1, by omega⟩
+    rw [hk, List.take_succ_cons]
+    by_cases hz : n - 1 = 0
+    · have : k = 0 := by omega
+      subst this
+      simp [contB, hz, Std.utf8]
+    · rw [ih ht (n - 1) (by omega)]
+      have : (n - 1).toNat = k := by omega
+      simp [contB, hz, Std.utf8, this]
+
+/-! ## the repaired defect, kept as a witness
+
+Before commit 4ac590f `count()` skipped the byte after a 2-byte lead without reading it: on a string that
+ends in such a lead the next read is outside the allocation.  `countFromOld` transcribes that code. -/
+
+theorem count_trunc2_counterexample : countFromOld (mem [0xC2]) = none := by decide
+theorem count_trunc2_repaired : count [0xC2] = some 1 := by decide
+
+/-! ## non-vacuity / sanity instances (tests, labelled as such) -/
+
+example : NoNul ['a', 'é', '€', '😀'] := by unfold NoNul; decide
+example : fromCodes [97, 233, 8364, 128512] = some [0x61, 0xC3, 0xA9, 0xE2, 0x82, 0xAC, 0xF0, 0x9F, 0x98, 0x80] := by
+  decide +kernel
+example : chars [0x61, 0xC3, 0xA9, 0xE2, 0x82, 0xAC, 0xF0, 0x9F, 0x98, 0x80] = some [97, 233, 8364, 128512] := by
+  decide +kernel
+example : dataw [0xF0, 0x9F, 0x98, 0x80] = some [0xD83D, 0xDE00] := by decide +kernel
+example : fromWide [0xD83D, 0xDE00, 0] = some [0xF0, 0x9F, 0x98, 0x80] := by decide +kernel
+-- ill-formed input: a stray continuation byte is the catch-all 4-byte case of the enumerator, skipped by `chars()`
+example : iter [0x80, 0x41, 0x42, 0x43, 0x44] = some [(0x1083, 4), (0x44, 1)] := by decide +kernel
+example : chars [0x80, 0x41, 0x42, 0x43, 0x44] = some [0x41, 0x42, 0x43, 0x44] := by decide +kernel
+-- truncated at the very end of the buffer: every reader stops at the terminator
+example : iter [0x41, 0xE2, 0x82] = some [(0x41, 1), (0, 2)] := by decide +kernel
+example : hasNul (mem [0x41, 0xE2, 0x82]) = true := by decide
+-- "ÉCOLE" / "école"
+example : equalsNocase [0xC3, 0x89, 0x43] [0xC3, 0xA9, 0x63] = some true := by decide +kernel
+example : toLowerCase [0xC3, 0x89, 0x43] = some [0xC3, 0xA9, 0x63] := by decide +kernel
+-- not part of the property, recorded: the two-byte table truncates 3-byte images (U+023F ȿ ↦ U+2C7E = E2 B1 BE)
+example : toUpperCase [0xC8, 0xBF] = some [0xE2, 0xB1] := by decide +kernel
+
 end C08
